@@ -5,6 +5,7 @@
 From Coq Require Import List String Bool Arith Lia Permutation.
 Import ListNotations.
 From Casbin Require Import Base BaseProofs Store StoreProofs Roles RolesProofs Machine MachineProofs Dist.
+From Casbin Require Import PriorityProofs.
 
 (* ================= 1. every call = one optional adapter call + a memory function ================= *)
 
@@ -422,12 +423,22 @@ Proof. intros [S L]. split; intros pt; [rewrite S; reflexivity|rewrite L; apply 
 Lemma existsb_ext {A} (f g : A -> bool) l : (forall x, f x = g x) -> existsb f l = existsb g l.
 Proof. intros H. induction l as [|x t IH]; cbn [existsb]; [reflexivity|]. rewrite H, IH. reflexivity. Qed.
 
+Lemma decide_priority_rules_equiv ls1 ls2 sub obj act l : links_equiv ls2 ls1 ->
+  decide_priority_rules ls2 sub obj act l = decide_priority_rules ls1 sub obj act l.
+Proof.
+  intros E. induction l as [|r t IH]; [reflexivity|].
+  destruct r as [|pr [|ps [|po [|pa [|eft [|x y]]]]]]; try reflexivity.
+  cbn [decide_priority_rules]. unfold has_link. rewrite (has_link_equiv _ _ _ sub ps ""%string E), IH. reflexivity.
+Qed.
+
 Theorem decisions_from_rules_and_links s1 s2 : mem_equiv s1 s2 ->
   (forall sub obj act, decide_rbac s2 sub obj act = decide_rbac s1 sub obj act) /\
   (forall sub dom obj act, decide_domain s2 sub dom obj act = decide_domain s1 sub dom obj act) /\
-  (forall pt u r d, has_link (get_links s2 pt) u r d = has_link (get_links s1 pt) u r d).
+  (forall pt u r d, has_link (get_links s2 pt) u r d = has_link (get_links s1 pt) u r d) /\
+  (forall sub obj act, decide_priority s2 sub obj act = decide_priority s1 sub obj act).
 Proof.
-  intros [S L]. split; [|split].
+  intros [S L]. split; [|split; [|split]]; [| | |intros sub obj act; unfold decide_priority; rewrite S;
+    apply decide_priority_rules_equiv, L].
   - intros sub obj act. unfold decide_rbac. rewrite S. apply existsb_ext. intros r.
     destruct r as [|ps [|po [|pa [|x t]]]]; try reflexivity.
     unfold has_link. rewrite (has_link_equiv _ _ _ sub ps ""%string (L "g"%string)),
@@ -1296,3 +1307,281 @@ Proof.
   destruct (String.eqb pt "g"); [inversion Hd; subst; left; reflexivity|].
   destruct (String.eqb pt "p"); [inversion Hd; subst; discriminate Hg|discriminate].
 Qed.
+
+(* ================= 14. the *Self calls notify nobody =================
+   Frame: a *Self call changes stores, links, the matcher-cache counter and (when asked) the
+   adapter — nothing else: no watcher callback, no flag.  (enforcer_distributed.go never calls
+   e.watcher / e.dispatcher; the ordinary API does both in internal_api.go.) *)
+Definition notif (s : mstate) := (autosave s, autonotify s, watcher s, wlog s).
+
+Lemma links_update_notif d s pt b rs : notif (fst (links_update d s pt b rs)) = notif s.
+Proof. unfold links_update. destruct (build_incremental _ _ _ _). reflexivity. Qed.
+
+Lemma one_link_notif d s pt b rs (k : bool -> dres) :
+  notif (fst (let '(s3, lok) := links_update d s pt b rs in (s3, k lok))) = notif s.
+Proof.
+  pose proof (links_update_notif d s pt b rs) as H. destruct (links_update d s pt b rs) as [s3 lok]. exact H.
+Qed.
+
+Lemma two_links_notif d s pt R A :
+  notif (fst (let '(s3, lok1) := links_update d s pt false R in
+              if negb lok1 then (s3, DFlag true true)
+              else let '(s4, lok2) := links_update d s3 pt true A in (s4, DFlag true (negb lok2)))) = notif s.
+Proof.
+  pose proof (links_update_notif d s pt false R) as H1.
+  destruct (links_update d s pt false R) as [s3 lok1]. cbn [fst] in H1. destruct lok1; cbn [negb]; [|exact H1].
+  pose proof (links_update_notif d s3 pt true A) as H2.
+  destruct (links_update d s3 pt true A) as [s4 lok2]. cbn [fst] in *. congruence.
+Qed.
+
+Lemma self_mem_notif cfg s op old : notif (fst (self_mem cfg s op old)) = notif s.
+Proof.
+  destruct op as [pt rs|pt rs|pt fi fvs| |pt o n|pt os ns|pt ns fi fvs]; cbn [self_mem];
+    try (destruct (def_of cfg pt) as [d|]; [|reflexivity]).
+  - unfold add_mem. destruct (add_many _ _ _) as [st' aff]. destruct (a_is_g d); [|reflexivity].
+    apply (one_link_notif d (with_store s pt st') pt true aff (fun lok => DRules aff (negb lok))).
+  - unfold remove_mem. destruct (remove_many _ _) as [st' aff]. destruct (a_is_g d); [|reflexivity].
+    apply (one_link_notif d (with_store s pt st') pt false aff (fun lok => DRules aff (negb lok))).
+  - unfold remove_filtered_mem. destruct (remove_filtered _ _ _) as [[[st' b] eff]|]; [|reflexivity].
+    destruct (a_is_g d); [|reflexivity].
+    apply (one_link_notif d (with_store s pt st') pt false eff (fun lok => DRules eff (negb lok))).
+  - reflexivity.
+  - unfold update_mem. destruct (update _ _ _) as [st' u]. destruct u; cbn [negb]; [|reflexivity].
+    destruct (a_is_g d); [|reflexivity]. apply (two_links_notif d (with_store s pt st') pt [o] [n]).
+  - unfold update_many_mem. destruct (update_many _ _ _) as [st' u]. destruct u; cbn [negb]; [|reflexivity].
+    destruct (Nat.ltb _ _); [reflexivity|].
+    destruct (a_is_g d); [|reflexivity]. apply (two_links_notif d (with_store s pt st') pt os ns).
+  - unfold update_filtered_mem. destruct (remove_many _ _) as [st1 aff]. destruct (add_many _ _ _) as [st2 x].
+    destruct (negb _); [reflexivity|].
+    destruct (a_is_g d); [|reflexivity]. apply (two_links_notif d (with_store s pt st2) pt old ns).
+Qed.
+
+(* every call, any persist decision, failing adapter or not, inside or outside the guards *)
+Theorem self_notifies_nobody cfg s op p :
+  let s' := fst (dstep cfg s op p) in
+  wlog s' = wlog s /\ watcher s' = watcher s /\ autonotify s' = autonotify s /\ autosave s' = autosave s.
+Proof.
+  assert (H : notif (fst (dstep cfg s op p)) = notif s).
+  { rewrite dstep_factor. destruct (if p then self_call cfg s op else None) as [c|]; [|apply self_mem_notif].
+    destruct (adapter_call (ad s) c) as [[a ok] old]. destruct ok; [|reflexivity].
+    rewrite self_mem_notif. reflexivity. }
+  unfold notif in H. cbn zeta. inversion H. auto.
+Qed.
+
+(* ================= 15. ... and never their own dispatcher =================
+   Dist.replica carries the calls made on the replica's own dispatcher; rstep is dstep on the
+   enforcer part: whatever the log, the persist decisions, the adapter failures and whether a
+   dispatcher is set, the dispatcher sees no call, and results and enforcer state are those of the
+   replica without dispatcher.  (True by the shape of the model — which is the point: the Go text
+   it follows has no branch on d.dispatcher; the harness replica wired with SetDispatcher ties the
+   code to it.) *)
+Theorem self_dispatcher_free cfg : forall log r,
+  rep_disp (fst (rrun cfg r log)) = rep_disp r /\
+  rep_m (fst (rrun cfg r log)) = fst (drun cfg (rep_m r) log) /\
+  snd (rrun cfg r log) = snd (drun cfg (rep_m r) log).
+Proof.
+  induction log as [|[op p] t IH]; intros r; cbn [rrun drun]; [repeat split; reflexivity|].
+  unfold rstep. destruct (dstep cfg (rep_m r) op p) as [m x] eqn:E.
+  specialize (IH {| rep_m := m; rep_disp := rep_disp r |}). cbn [rep_m rep_disp] in IH.
+  destruct (rrun cfg {| rep_m := m; rep_disp := rep_disp r |} t) as [r2 xs].
+  destruct (drun cfg m t) as [s2 ys]. cbn [fst snd] in *. destruct IH as (H1 & H2 & H3).
+  repeat split; [exact H1|exact H2|rewrite H3; reflexivity].
+Qed.
+
+(* a replica wired to a dispatcher and one that is not (any persist predicates) agree on every log *)
+Theorem wired_replica_agrees cfg log1 log2 r1 r2 :
+  map fst log1 = map fst log2 -> no_filtered (map fst log1) ->
+  same_mem (rep_m r1) (rep_m r2) -> fail_in (ad (rep_m r1)) = None -> fail_in (ad (rep_m r2)) = None ->
+  same_mem (rep_m (fst (rrun cfg r1 log1))) (rep_m (fst (rrun cfg r2 log2))) /\
+  snd (rrun cfg r1 log1) = snd (rrun cfg r2 log2) /\
+  rep_disp (fst (rrun cfg r1 log1)) = rep_disp r1 /\ rep_disp (fst (rrun cfg r2 log2)) = rep_disp r2.
+Proof.
+  intros Hl Hn Sm F1 F2.
+  destruct (self_dispatcher_free cfg log1 r1) as (D1 & M1 & X1).
+  destruct (self_dispatcher_free cfg log2 r2) as (D2 & M2 & X2).
+  destruct (replicas_agree_log cfg log1 log2 (rep_m r1) (rep_m r2) Hl Hn Sm F1 F2) as [A B].
+  rewrite M1, M2, X1, X2. auto.
+Qed.
+
+(* ================= 16. a policy type with a priority column stays sorted =================
+   model.AddPolicy inserts a rule with a numeric priority behind the last listed rule whose
+   priority is not greater (Store.add / spec_insert; PriorityProofs.insert_sorted), removals keep
+   the order of what stays, an update replaces in place: with numeric priorities everywhere and
+   updates that keep the priority, the listing of the type is sorted after every *Self call. *)
+Definition dprio_ok (c : nat) (pt : string) (op : dop) : Prop :=
+  match op with
+  | DAdd pt' rs => pt' = pt -> Forall (num_rule c) rs
+  | DRemove _ _ | DRemoveFiltered _ _ _ | DClear => True
+  | DUpdate pt' o n => pt' = pt -> num_rule c n /\ pv c o = pv c n
+  | DUpdateMany pt' os ns => pt' = pt -> Forall (num_rule c) ns /\ map (pv c) os = map (pv c) ns
+  | DUpdateFiltered _ _ _ _ => False
+  end.
+
+Lemma untouched_sorted c s s' pt pt' : others_untouched s s' pt' -> pt <> pt' ->
+  SortedNum c (pol (get_store s pt)) -> SortedNum c (pol (get_store s' pt)).
+Proof. intros O Hne H. rewrite (proj1 (O pt Hne)). exact H. Qed.
+
+Lemma self_mem_undefined cfg s op old pt' :
+  match op with
+  | DAdd p _ | DRemove p _ | DRemoveFiltered p _ _ | DUpdate p _ _ | DUpdateMany p _ _ | DUpdateFiltered p _ _ _ => p = pt'
+  | DClear => False
+  end -> def_of cfg pt' = None -> fst (self_mem cfg s op old) = s.
+Proof. destruct op; cbn [self_mem]; intros E H; try contradiction; subst; rewrite H; reflexivity. Qed.
+
+Theorem self_keeps_priority_order cfg s op p pt d c :
+  MInv cfg s -> dop_ok cfg s op -> call_ok s p -> def_of cfg pt = Some d -> a_prio d = Some c ->
+  dprio_ok c pt op -> SortedNum c (pol (get_store s pt)) ->
+  SortedNum c (pol (get_store (fst (dstep cfg s op p)) pt)).
+Proof.
+  intros M G Hok Hd Hc Hp Hs.
+  (* an operation on another policy type *)
+  assert (Other : forall pt', pt' <> pt ->
+            match op with
+            | DAdd q _ | DRemove q _ | DRemoveFiltered q _ _ | DUpdate q _ _ | DUpdateMany q _ _ | DUpdateFiltered q _ _ _ => q = pt'
+            | DClear => False
+            end -> (forall d', def_of cfg pt' = Some d' -> others_untouched s (fst (dstep cfg s op p)) pt') ->
+            SortedNum c (pol (get_store (fst (dstep cfg s op p)) pt))).
+  { intros pt' Hne Hop Hex. destruct (def_of cfg pt') as [d'|] eqn:Hd'.
+    - apply (untouched_sorted c s _ pt pt' (Hex d' eq_refl)); [congruence|exact Hs].
+    - destruct (dstep_mem cfg s op p Hok) as (s1 & old & Sm & E & _). rewrite E.
+      rewrite (self_mem_undefined cfg s1 op old pt' Hop Hd'). rewrite (proj1 Sm pt). exact Hs. }
+  destruct op as [q rs|q rs|q fi fvs| |q o n|q os ns|q ns fi fvs]; cbn [dop_ok dprio_ok] in G, Hp.
+  - (* AddPoliciesSelf *)
+    destruct (String.eqb q pt) eqn:Eq; [apply String.eqb_eq in Eq; subst q|apply String.eqb_neq in Eq].
+    + destruct (dstep_mem cfg s (DAdd pt rs) p Hok) as (s1 & old & Sm & E & _). rewrite E. cbn [self_mem]. rewrite Hd.
+      pose proof (MInv_same_mem cfg s s1 Sm M) as M1.
+      destruct (add_mem_spec cfg s1 pt d rs M1 Hd (G d Hd)) as (st' & _ & Pp & _ & Mc).
+      destruct (mem_change_at _ _ _ _ _ Mc) as (Es & _ & _). rewrite Es, Pp, (proj1 Sm pt), Hc.
+      apply SortedNum_add_many; [exact Hs|exact (Hp eq_refl)].
+    + apply (Other q Eq eq_refl). intros d' Hd'.
+      apply (add_self_exact cfg s p q d' rs M Hd' (G d' Hd') Hok).
+  - (* RemovePoliciesSelf *)
+    destruct (String.eqb q pt) eqn:Eq; [apply String.eqb_eq in Eq; subst q|apply String.eqb_neq in Eq].
+    + destruct (remove_self_exact cfg s p pt d rs M Hd G Hok) as (_ & Pl & _). rewrite Pl.
+      apply SortedNum_filter, Hs.
+    + apply (Other q Eq eq_refl). intros d' Hd'. apply (remove_self_exact cfg s p q d' rs M Hd' G Hok).
+  - (* RemoveFilteredPolicySelf *)
+    destruct (String.eqb q pt) eqn:Eq; [apply String.eqb_eq in Eq; subst q|apply String.eqb_neq in Eq].
+    + destruct (remove_filtered_self_exact cfg s p pt d fi fvs M Hd G Hok) as (_ & Pl & _). rewrite Pl.
+      apply SortedNum_filter, Hs.
+    + apply (Other q Eq eq_refl). intros d' Hd'. apply (remove_filtered_self_exact cfg s p q d' fi fvs M Hd' G Hok).
+  - (* ClearPolicySelf *)
+    destruct (clear_self cfg s p Hok) as [_ H]. rewrite (proj1 (H pt)). split; constructor.
+  - (* UpdatePolicySelf *)
+    destruct (String.eqb q pt) eqn:Eq; [apply String.eqb_eq in Eq; subst q|apply String.eqb_neq in Eq].
+    + destruct (G d Hd) as [Rk Hl]. destruct (Hp eq_refl) as [Hn Hv].
+      destruct (update_self_exact cfg s p pt d o n M Hd Rk Hl Hok) as (_ & Pl & _). rewrite Pl.
+      apply SortedNum_replace; assumption.
+    + apply (Other q Eq eq_refl). intros d' Hd'. destruct (G d' Hd') as [Rk Hl].
+      apply (update_self_exact cfg s p q d' o n M Hd' Rk Hl Hok).
+  - (* UpdatePoliciesSelf *)
+    destruct (String.eqb q pt) eqn:Eq; [apply String.eqb_eq in Eq; subst q|apply String.eqb_neq in Eq].
+    + destruct (G d Hd) as (Ro & Rn & Len & Hcase). destruct (Hp eq_refl) as [Hn Hv].
+      destruct Hcase as [(o & os' & -> & Hmiss)|(ND & Hnl & Hno)].
+      * (* the first old rule is not listed: nothing happens *)
+        destruct ns as [|n ns']; [discriminate|].
+        destruct (dstep_mem cfg s (DUpdateMany pt (o :: os') (n :: ns')) p Hok) as (s1 & old & Sm & E & _).
+        rewrite E. cbn [self_mem]. rewrite Hd.
+        pose proof (MInv_same_mem cfg s s1 Sm M) as M1.
+        assert (Wo : wf_rule o = true) by (destruct Ro as [W _]; inversion W; assumption).
+        rewrite <- (proj1 Sm pt) in Hmiss.
+        rewrite (update_many_mem_missing cfg s1 pt d o os' n ns' M1 Wo Hmiss).
+        cbn [fst]. rewrite (proj1 (with_store_same s1 pt) pt), (proj1 Sm pt). exact Hs.
+      * pose proof (update_many_self_exact cfg s p pt d os ns M Hd Ro Rn Len ND Hnl Hno Hok) as [H _].
+        cbn zeta in H. destruct (spec_update_many (pol (get_store s pt)) os ns) as [l'|] eqn:Es.
+        -- destruct H as (_ & Pl & _). rewrite Pl. eapply SortedNum_update_many; eassumption.
+        -- destruct H as (_ & Pl). rewrite Pl. exact Hs.
+    + apply (Other q Eq eq_refl). intros d' Hd'. destruct (G d' Hd') as (Ro & Rn & Len & Hcase).
+      destruct Hcase as [(o & os' & -> & Hmiss)|(ND & Hnl & Hno)].
+      * destruct ns as [|n ns']; [discriminate|].
+        destruct (dstep_mem cfg s (DUpdateMany q (o :: os') (n :: ns')) p Hok) as (s1 & old & Sm & E & _).
+        rewrite E. cbn [self_mem]. rewrite Hd'.
+        pose proof (MInv_same_mem cfg s s1 Sm M) as M1.
+        assert (Wo : wf_rule o = true) by (destruct Ro as [W _]; inversion W; assumption).
+        rewrite <- (proj1 Sm q) in Hmiss.
+        rewrite (update_many_mem_missing cfg s1 q d' o os' n ns' M1 Wo Hmiss).
+        intros pt' Hne. cbn [fst]. destruct (with_store_same s1 q) as [W1 W2].
+        rewrite (W1 pt'), (W2 pt'), (proj1 Sm pt'), (proj2 Sm pt'). auto.
+      * apply (update_many_self_exact cfg s p q d' os ns M Hd' Ro Rn Len ND Hnl Hno Hok).
+  - contradiction.
+Qed.
+
+(* every guarded log: the type stays sorted on every replica *)
+Fixpoint dprio_oks (c : nat) (pt : string) (log : list (dop * bool)) : Prop :=
+  match log with [] => True | (op, _) :: t => dprio_ok c pt op /\ dprio_oks c pt t end.
+
+Theorem drun_keeps_priority_order cfg pt d c : forall log s,
+  def_of cfg pt = Some d -> a_prio d = Some c ->
+  MInv cfg s -> fail_in (ad s) = None -> dguards cfg s log -> dprio_oks c pt log ->
+  SortedNum c (pol (get_store s pt)) -> SortedNum c (pol (get_store (fst (drun cfg s log)) pt)).
+Proof.
+  induction log as [|[op p] t IH]; intros s Hd Hc M F G P Hs; cbn [drun fst]; [exact Hs|].
+  destruct G as [G1 G2]. destruct P as [P1 P2].
+  assert (Hok : call_ok s p) by (intros _; rewrite F; discriminate).
+  pose proof (dstep_MInv cfg s op p M G1) as M1.
+  pose proof (dstep_nofail cfg s op p F) as F1.
+  pose proof (self_keeps_priority_order cfg s op p pt d c M G1 Hok Hd Hc P1 Hs) as S1.
+  destruct (dstep cfg s op p) as [s1 r1]. cbn [fst] in *.
+  specialize (IH s1 Hd Hc M1 F1 G2 P2 S1). destruct (drun cfg s1 t). exact IH.
+Qed.
+
+(* ---------- non-vacuity of 15 and 16: a priority model, a replica wired to a dispatcher ----------
+   p = priority, sub, obj, act, eft.  Rules inserted in front of listed ones, behind a tie, the rule
+   that sorts last removed (and removed again), a rule replaced by one of the same priority: the
+   log is inside the guards, every call keeps the priorities numeric, the listing stays sorted. *)
+Definition cfg_prio : mconf :=
+  [("g", {| a_is_g := true; a_arity := 2; a_prio := None |});
+   ("p", {| a_is_g := false; a_arity := 5; a_prio := Some 0 |})].
+Definition pr_ops : list dop :=
+  [DAdd "p" [["10"; "alice"; "data1"; "read"; "allow"]; ["20"; "root"; "data2"; "write"; "deny"]];
+   DAdd "p" [["1"; "alice"; "data2"; "write"; "deny"]; ["10"; "bob"; "data2"; "write"; "allow"]];
+   DRemove "p" [["20"; "root"; "data2"; "write"; "deny"]];
+   DRemove "p" [["20"; "root"; "data2"; "write"; "deny"]];
+   DAdd "g" [["bob"; "alice"]];
+   DUpdate "p" ["1"; "alice"; "data2"; "write"; "deny"] ["1"; "alice"; "data1"; "read"; "deny"]].
+Definition pr_log (p : bool) : list (dop * bool) := map (fun o => (o, p)) pr_ops.
+Definition pr_s0 : mstate := init_state cfg_prio false false WNone [].
+
+Lemma prio_example_init : MInv cfg_prio pr_s0.
+Proof.
+  apply init_MInv. intros pt d Hd Hg. unfold def_of, cfg_prio in Hd. cbn [lookup] in Hd.
+  destruct (String.eqb pt "g"); [inversion Hd; subst; left; reflexivity|].
+  destruct (String.eqb pt "p"); [inversion Hd; subst; discriminate Hg|discriminate].
+Qed.
+
+Lemma prio_example_guards : dguards cfg_prio pr_s0 (pr_log true) /\ dprio_oks 0 "p" (pr_log true).
+Proof.
+  assert (RP : forall d rs, def_of cfg_prio "p" = Some d -> Forall (fun r => wf_rule r = true) rs -> rules_ok d rs).
+  { intros d rs Hd H. vm_compute in Hd. inversion Hd; subst. split; [exact H|]. intros Hg; discriminate Hg. }
+  split.
+  - cbn [pr_log pr_ops map dguards].
+    split; [intros d Hd; apply RP; [exact Hd|repeat constructor]|].
+    split; [intros d Hd; apply RP; [exact Hd|repeat constructor]|].
+    split; [repeat constructor|].
+    split; [repeat constructor|].
+    split; [intros d Hd; vm_compute in Hd; inversion Hd; subst; split; [repeat constructor|];
+            intros _ r [<-|[]]; reflexivity|].
+    split; [|exact I].
+    intros d Hd. split; [apply RP; [exact Hd|repeat constructor]|].
+    right. vm_compute. intros [H|[H|[H|[]]]]; discriminate.
+  - cbn [pr_log pr_ops map dprio_oks dprio_ok].
+    repeat split; try (intros E; discriminate E); try exact I;
+      repeat constructor; unfold num_rule; vm_compute; discriminate.
+Qed.
+
+Lemma prio_example_results :
+  snd (drun cfg_prio pr_s0 (pr_log true)) =
+    [DRules [["10"; "alice"; "data1"; "read"; "allow"]; ["20"; "root"; "data2"; "write"; "deny"]] false;
+     DRules [["1"; "alice"; "data2"; "write"; "deny"]; ["10"; "bob"; "data2"; "write"; "allow"]] false;
+     DRules [["20"; "root"; "data2"; "write"; "deny"]] false; DRules [] false;
+     DRules [["bob"; "alice"]] false; DFlag true false] /\
+  pol (get_store (fst (drun cfg_prio pr_s0 (pr_log false))) "p") =
+    [["1"; "alice"; "data1"; "read"; "deny"]; ["10"; "alice"; "data1"; "read"; "allow"];
+     ["10"; "bob"; "data2"; "write"; "allow"]] /\
+  (* bob inherits alice's rules: the deny of priority 1 wins over the allow of priority 10 *)
+  decide_priority (fst (drun cfg_prio pr_s0 (pr_log false))) "bob" "data1" "read" = Some false /\
+  decide_priority (fst (drun cfg_prio pr_s0 (pr_log false))) "bob" "data2" "write" = Some true /\
+  (* a replica wired to a dispatcher: same results, the dispatcher saw no call *)
+  snd (rrun cfg_prio {| rep_m := pr_s0; rep_disp := Some [] |} (pr_log false)) = snd (drun cfg_prio pr_s0 (pr_log true)) /\
+  rep_disp (fst (rrun cfg_prio {| rep_m := pr_s0; rep_disp := Some [] |} (pr_log false))) = Some [].
+Proof. vm_compute. repeat split; reflexivity. Qed.
